@@ -170,6 +170,10 @@ def fam_constructor(cls):
                             emit("base-reported-back", ["C16"], z3.BoolVal(b is args[1]))
                         else:
                             emit("default-base-is-e", ["C16", "C01"], real_term(b) == sym.E)
+                # C14 / C10: building a node leaves the operands' own variable sets as they were
+                for a in args:
+                    if isinstance(a, Obj) and a.kind == "child" and "vars_obj" in a.ghost:
+                        emit(f"operand-variable-set-untouched[{a.name}]", ["C14", "C10"], a.ghost["vars_obj"].term == a.ghost["vars"])
                 # C14: Vars(self) as stored equals the union of the children's (structural definition)
                 vn = f.get("_variable_names")
                 emit("variable-names=Vars", ["C14"], z3.BoolVal(isinstance(vn, SSet)) if not isinstance(vn, SSet)
@@ -550,8 +554,17 @@ def fam_repr(cls, arity, label, bounded, method):
                         ok = False
                     bound[k] = a
             conds = []
+            # parameters left out of the printed call take the constructor's default
+            init = cls.lookup("__init__").node.args
+            pnames = [a.arg for a in init.args[1:]]
+            defaults = dict(zip(pnames[len(pnames) - len(init.defaults):], init.defaults))
             if ok:
                 for pn, val in want.items():
+                    if pn != "*args" and pn not in bound and pn in defaults:
+                        from ..interp import Env
+                        dv = I.eval(defaults[pn], Env(cls.lookup("__init__").module))
+                        conds.append(real_term(dv) == real_term(val) if is_num(dv) and is_num(val) else False)
+                        continue
                     if pn == "*args":
                         got = bound.get("*args", [])
                         if len(got) != len(val):
